@@ -7,7 +7,7 @@ import (
 func init() {
 	register(&Property{
 		ID:    "C01",
-		Rules: []string{"C01-R1", "C01-R2", "C01-R3", "C01-R4", "C01-R5", "C01-R6", "C11-R3", "C11-R5", "C04-R1", "C04-R2"},
+		Rules: []string{"C01-R1", "C01-R2", "C01-R3", "C01-R4", "C01-R5", "C01-R6", "C11-R2", "C11-R3", "C11-R5", "C04-R1", "C04-R2"},
 		Explain: "Decides the construction discipline of a resolved ingredient list for every recursive resolver of package resolver: " +
 			"C01-R1 the list stored into a recipe is the value last sorted; C01-R2 the sort order is element name ascending; " +
 			"C01-R3 a recipe's elements are merged only after that recipe was expanded in the same iteration; " +
@@ -20,7 +20,7 @@ func init() {
 			rs := recursiveResolvers(c.P)
 			for _, r := range rs {
 				c.Universe("recursive resolvers", core.FuncName(r)+" ("+c.P.Pos(r.Pos())+")")
-				analyseResolver(c, r, map[string]bool{"C01-R1": true, "C01-R3": true, "C01-R5": true})
+				analyseResolver(c, r, map[string]bool{"C01-R1": true, "C01-R3": true, "C01-R5": true, "C11-R2": true})
 			}
 			if len(rs) == 0 {
 				c.Undecide("C01-R1", "resolver", "universe", "-", "package resolver has no recursive resolver: the universe of the rule is empty although Resolve must expand nested recipes somehow", nil)
@@ -33,7 +33,7 @@ func init() {
 			ruleElementsIndex(c, "C01-R6")
 			// "nested less deeply than the depth limit": the limit in force is the one the user configured
 			ruleGuardedOverridesOnly(c, "C11-R3", "MaxDepth")
-			ruleResolverEntries(c, "C11-R5", false, true)
+			ruleResolverEntries(c, "C11-R5", true, true)
 			// the book that is resolved is the book that was written: the tokenizer delivers every heading, also an empty last one
 			analyseParserLoop(c, map[string]bool{"C04-R1": true, "C04-R2": true})
 		},
